@@ -136,8 +136,14 @@ impl TypeAggregator {
         }
 
         let remapped = self.remap_item_kind(types, kind, checker)?;
-        let prev = self.imports.insert(name.to_string(), remapped);
-        assert!(prev.is_none());
+
+        // Remapping imports the interfaces the item depends on under their own names; the
+        // item itself may not be imported under the name of one of them.
+        if self.imports.contains_key(name) {
+            bail!("import `{name}` conflicts with an interface of the same name that the imported item depends on");
+        }
+
+        self.imports.insert(name.to_string(), remapped);
         Ok(self)
     }
 
